@@ -27,9 +27,9 @@ func TestVerifSim(t *testing.T) {
 			"disk (vfs.NewCrashableMem behind a WAL write/sync gate; crash = CrashClone with 0% or 100% of unsynced data)",
 			"proposers: controller reconciler / channel leaders / migration executors acting on cached reads; wall clock of executors",
 			"hash-slot ownership table (fixed per run), delta forwarder (nil)",
-			"C17exec: channel data plane behind MigrationRuntime (probe / drain / apply-meta answered from a small per-node model), slot proposer, router, task source (both executors believe they lead the slot), operator, wall clock",
+			"C17exec: channel data plane behind MigrationRuntime (probe / drain / apply-meta answered from a small per-node model with replication lag, a warming new leader, runtime eviction and re-activation from a stale metadata read), slot proposer, router, task source (both executors believe they lead the slot), operator, wall clock",
 		},
-		Rule: "One run = one synctest bubble. C13: a tape-generated log (8-40 commands over every command type, valid/stale/conflicting/malformed/unowned) applied alone on a reference replica and in tape-chosen ApplyBatch partitions on two more real replicas with crashes (between and inside batches), clean reopens and snapshot restores; non-trivial = >=5 applied commands, >=2 multi-command batches and (a recovery happened or the run is fault-free). " +
+		Rule: "One run = one synctest bubble. C13: a tape-generated log (8-40 commands over every command type, valid/stale/conflicting/malformed/unowned/re-proposed) applied alone on a reference replica and in tape-chosen ApplyBatch partitions on two more real replicas with crashes (between and inside batches), clean reopens and snapshot restores; non-trivial = >=5 applied commands, >=2 multi-command batches and (a recovery happened or the run is fault-free). " +
 			"C15: 2-4 proposers with stale caches, 10-50 commands delivered reordered/duplicated in batches with reopen/crash; non-trivial = >=3 applied and >=1 refused write. " +
 			"C17exec: the real pkg/cluster/channels MigrationExecutor (two identities) + MigrationStore against the real FSM, runtime and proposer ports parked at the scheduler (late answers, failures, lost / unacknowledged / duplicated proposals), executor crash and restart, operator create / abort, simulated clock, then a fault-free tail; non-trivial = >=4 accepted commands, a cutover committed or a task completed, and a fault fired (or the run is fault-free). " +
 			"C17: two executors following the real migration workflow on stale views plus an ordinary metadata writer, 30-100 commands, simulated clock; non-trivial = >=4 accepted, >=1 refused and (a cutover was committed or the run is fault-free).",
